@@ -331,8 +331,9 @@ type rtWitness struct {
 }
 
 type checker struct {
-	b   *harness.B
-	rng *rand.Rand
+	b        *harness.B
+	rng      *rand.Rand
+	prevText map[string]string // last text parsed per (type, form): the receiver content of the reuse monitor
 }
 
 // roundtripForm checks parse(format(v)) ≡ normalise(v) for one form. It
@@ -365,6 +366,30 @@ func (c *checker) roundtripForm(e *entry, f *form, ptr any) (class, detail strin
 		wit.Diff = d
 		wit.Got = dump(dst)
 		return diffClass(d), fmt.Sprintf("%s: parse(format(v)) differs from v in the %s form at %s (text %s)", e.Name, f.Name, capStr(d, 400), capStr(s, 300)), wit
+	}
+	// a caller that reuses one variable: parsing a text into a value that already holds another one yields the parsed
+	// value (text forms only; encoding/json merges into a used value by its own documented rules)
+	if f.Name != "json" {
+		k := e.Name + "/" + f.Name
+		if c.prevText == nil {
+			c.prevText = map[string]string{}
+		}
+		if prev, ok := c.prevText[k]; ok && prev != s {
+			dst2 := reflect.New(e.Type).Interface()
+			var e1, e2 error
+			if !b.Guard("C20", func() any { return wit }, func() { e1 = f.Parse(prev, dst2); e2 = f.Parse(s, dst2) }) && e1 == nil && e2 == nil {
+				b.Count("texts_parsed_into_a_used_value", 1)
+				valgen.Canon(dst2)
+				if d := valgen.Diff(exp, dst2); d != "" {
+					wit.Diff = d
+					wit.Got = dump(dst2)
+					wit.Note = "receiver held the value parsed from: " + capStr(prev, 300)
+					c.prevText[k] = s
+					return "parsed-into-a-used-value/" + diffClass(d), fmt.Sprintf("%s: parsing %s into a variable that held the value of %s gives a mixture (differs at %s)", e.Name, capStr(s, 200), capStr(prev, 200), capStr(d, 300)), wit
+				}
+			}
+		}
+		c.prevText[k] = s
 	}
 	return "", "", wit
 }
